@@ -15,7 +15,7 @@ ASSUMPTIONS = [
     'message IDs are ASCII digit strings (leading zeros included), possibly surrounded by white space as in re-indented XML; '
     'Python int() on signs, underscores and non-ASCII digits is outside the model and not generated',
 ]
-ID_SETS = [['9', '10', '100'], ['\n    9\n  ', ' 10 ', '8', '100\t'], ['2', '11', '1', '3'], ['007', '8', '10', '9'], ['99', '100', '101', '1000', '5'],
+ID_SETS = [['9', '10', '100'], ['1000', '2863312530', '5', '1431656765', '3000000007'], ['\n    9\n  ', ' 10 ', '8', '100\t'], ['2', '11', '1', '3'], ['007', '8', '10', '9'], ['99', '100', '101', '1000', '5'],
            ['1', '2', '3', '4', '5', '6'], ['10', '9'], ['20', '3', '100', '0099']]
 
 
